@@ -127,7 +127,9 @@ func main() {
 	replay := flag.String("replay", "", "replay file (a violation json or a case json)")
 	par := flag.Int("par", runtime.NumCPU(), "parallelism")
 	emit := flag.String("emit", "", "emit model case lines of this kind to stdout (I,W,R,...)")
-	n := flag.Int("n", 0, "count for -emit")
+	n := flag.Int("n", 0, "count for -emit / -corr")
+	corrKind := flag.String("corr", "", "run the model correspondence of this kind against $FGMODEL")
+	dump := flag.Int("dump", -1, "print the generated case whose K field equals this value and exit")
 	flag.Parse()
 	seed, _ := strconv.ParseUint(*seedS, 10, 64)
 	var reqLevel, capLevel int
@@ -135,6 +137,13 @@ func main() {
 	if *emit != "" {
 		emitModelCases(*emit, NewRng(seed), *tier, *n)
 		return
+	}
+	if *prop == "CAP" {
+		fmt.Printf("level=%d requested=%d capability=%d\n", archLevel, reqLevel, capLevel)
+		return
+	}
+	if *corrKind != "" {
+		os.Exit(runCorrespondence(*corrKind, NewRng(seed), *tier, *n))
 	}
 	p := properties[*prop]
 	if p == nil {
@@ -164,8 +173,19 @@ func main() {
 			cases = []Case{c}
 		}
 	} else {
+		gen := p.Gen(NewRng(seed), *tier)
+		if *dump >= 0 {
+			for _, c := range gen {
+				if c.K == *dump {
+					b, _ := json.Marshal(c)
+					os.Stdout.Write(b)
+					return
+				}
+			}
+			return
+		}
 		cases = corpusCases(p.ID)
-		cases = append(cases, p.Gen(NewRng(seed), *tier)...)
+		cases = append(cases, gen...)
 	}
 	res.Evaluations = len(cases)
 	sigs := map[string]bool{}
